@@ -192,7 +192,26 @@ def reconcile_tables(res):
                                  reported=float(b[j]) if j >= 0 else None)
                 s[key + "_tap"] = a
                 s[key] = np.array(b, dtype=float)
-    tr.table_mismatch = n
+    # rows of days no step was executed for (skipped off-season days, days after termination)
+    # must be empty: anything there was not produced by this run
+    done = np.zeros(len(flux), dtype=bool)
+    for s in tr.steps:
+        if s["t"] < len(done):
+            done[s["t"]] = True
+    tr.rows_unexecuted = int((~done).sum())
+    tr.ghost_rows = 0
+    if tr.rows_unexecuted:
+        for key, tab in (("flux", flux), ("storage", stor), ("growth", growth)):
+            sub = np.asarray(tab)[~done]
+            bad = np.flatnonzero(np.any((sub != 0) | np.isnan(sub), axis=1))
+            if len(bad):
+                tr.ghost_rows += len(bad)
+                if first is None:
+                    t = int(np.flatnonzero(~done)[bad[0]])
+                    j = int(np.argmax((np.asarray(tab)[t] != 0) | np.isnan(np.asarray(tab)[t])))
+                    first = dict(t=t, table=key if key != "storage" else "stor_row", col=j, step_value=None,
+                                 reported=float(np.asarray(tab)[t][j]), ghost=True)
+    tr.table_mismatch = n + tr.ghost_rows
     tr.table_mismatch_first = first
 
 
